@@ -160,6 +160,17 @@ func streamInsulate(c *ctx) {
 			if show() != b {
 				return "changed: " + b + " -> " + show()
 			}
+			// ... and not by the next call either: the same operation once more on the same client, answered with other
+			// values - the result kept from the first call is still the first call's
+			again := validReply(r, p.op.reply, dev)
+			if p.name == "GetTimeProfile" {
+				again[8] = 29
+			}
+			d2.Datagrams = [][]byte{again}
+			p.run(u2)
+			if show() != b {
+				return "changed: " + b + " -> " + show() + " (after the next call)"
+			}
 			return "unchanged"
 		})
 		if res != "err" {
